@@ -101,6 +101,13 @@ fn settings_diff(a: &DefaultSettings<f64>, b: &DefaultSettings<f64>) -> Option<V
     if ma.len() != mb.len() {
         return Some(json!({"field_count": [ma.len(), mb.len()]}));
     }
+    // the serde view hides a field that is skipped by the serialiser on BOTH sides; the derived Debug view does not
+    let (da, db) = (format!("{:?}", a), format!("{:?}", b));
+    if da != db {
+        let (fa, fb): (Vec<&str>, Vec<&str>) = (da.split(", ").collect(), db.split(", ").collect());
+        let k = fa.iter().zip(&fb).position(|(x, y)| x != y).unwrap_or(0);
+        return Some(json!({"field_in_debug_view": fa.get(k), "b": fb.get(k)}));
+    }
     None
 }
 
